@@ -611,7 +611,8 @@ def answer (line : String) : String :=
           -- `matchx`: flags 4 and 5 turn an absent variant list into the present-but-empty one (`Some([])`)
           let x := if op == "matchx" && flagOf (a[4]?.getD "0") then someEmpty x else x
           let y := if op == "matchx" && flagOf (a[5]?.getD "0") then someEmpty y else y
-          withSpec s!"ok {b01 (LangId.isMatch x y ra rb)}" s!"ok {b01 (Spec.matchesB x y ra rb)}"
+          -- second column: the left operand matched against ITSELF (the same object, not an equal copy)
+          withSpec s!"ok {b01 (LangId.isMatch x y ra rb)} {b01 (LangId.isMatch x x ra rb)}" s!"ok {b01 (Spec.matchesB x y ra rb)} {b01 (Spec.matchesB x x ra rb)}"
         | _, _ => "err"
       | _, _ => "bad"
     | "locmatch" | "locmatchx" => match arg 0, arg 1 with
@@ -622,8 +623,8 @@ def answer (line : String) : String :=
           let rb := flagOf (a[3]?.getD "0")
           let x := if op == "locmatchx" && flagOf (a[4]?.getD "0") then { x with id := someEmpty x.id } else x
           let y := if op == "locmatchx" && flagOf (a[5]?.getD "0") then { y with id := someEmpty y.id } else y
-          withSpec s!"ok {b01 (Locale.isMatch x y ra rb)} {b01 (LangId.isMatch x.id y.id ra rb)}"
-            s!"ok {b01 (Spec.localeMatchesB x y ra rb)} {b01 (Spec.matchesB x.id y.id ra rb)}"
+          withSpec s!"ok {b01 (Locale.isMatch x y ra rb)} {b01 (LangId.isMatch x.id y.id ra rb)} {b01 (Locale.isMatch x x ra rb)} {b01 (Locale.isMatch y y ra rb)}"
+            s!"ok {b01 (Spec.localeMatchesB x y ra rb)} {b01 (Spec.matchesB x.id y.id ra rb)} {b01 (Spec.localeMatchesB x x ra rb)} {b01 (Spec.localeMatchesB y y ra rb)}"
         | _, _ => "err"
       | _, _ => "bad"
     | "langmatch" => match arg 0, arg 1 with
@@ -650,7 +651,7 @@ def answer (line : String) : String :=
       | some x, some y =>
         match Locale.fromBytes x, Locale.fromBytes y with
         | .ok x, .ok y =>
-          s!"ok eq={b01 (x == y)} cmp={ordStr (cmpLoc x y)} rcmp={ordStr (cmpLoc y x)} he={b01 (x == y)} se={b01 (x.display == y.display)} lieq={b01 (x.id == y.id)} licmp={ordStr (cmpLi x.id y.id)} xi={renderLi x.id} yi={renderLi y.id}"
+          s!"ok eq={b01 (x == y)} cmp={ordStr (cmpLoc x y)} rcmp={ordStr (cmpLoc y x)} he={b01 (x == y)} se={b01 (x.display == y.display)} lieq={b01 (x.id == y.id)} licmp={ordStr (cmpLi x.id y.id)} xi={renderLi x.id} yi={renderLi y.id} self={b01 (x == x)}{ordStr (cmpLoc x x)}"
         | _, _ => "err"
       | _, _ => "bad"
     | "route" => match arg 0 with
